@@ -491,7 +491,7 @@ func TestC03(t *testing.T) {
 		rng := run.RNG(id)
 		sc := genCrashScn(rng, run.Pick(12, 24))
 		if i%40 == 7 {
-			sc = genCrashScn(rng, 60) // a larger table now and then (up to 60 members)
+			sc = genCrashScn(rng, 32) // a larger table now and then (up to 32 members)
 		}
 		run.Journal(id, "")
 		var res []*c01Result
